@@ -141,7 +141,11 @@ def respects_commit_predicate(case, ans, n0):
 def run(rep):
     tier, rng = rep.tier, Rng(rep.seed)
     broken = []
-    files = prop_files()
+    # translator: high_vote / high_qc / get_implied_block regenerated from replica_timeout.rs, leader_proposal.rs;
+    # Properties/C02Gen.v proves them equal to Model/Msgs.v
+    import rust2coq
+    translator, gen_files = rust2coq.step(["numbers", "justification"], ["theories/Properties/C02Gen.v"], broken)
+    files = prop_files() + gen_files
     po = common.proof_obligations(files)
     if not po["ok"]:
         broken.append("Coq obligations of " + ",".join(files) + ": " + (po["log_tail"] or str(po["hygiene_problems"] or po["bad_axioms"])))
@@ -180,8 +184,8 @@ def run(rep):
     rep.cov.update({
         "obligations": po["obligations"] + 1, "discharged": po["discharged"] + (0 if mm else 1),
         "checker_cmd": "make -C coq " + " ".join(f[:-2] + ".vo" for f in files) + " + coqc on generated cases_*.v",
-        "trusted_base": common.standard_trusted_base(["H-SIG/H-ADV/H-HASH (symbolic cryptography, Dolev-Yao adversary) in the protocol-level theorems"]),
-        "theorems": po["theorems"], "axioms": po["axioms"],
+        "trusted_base": common.standard_trusted_base(["H-SIG/H-ADV/H-HASH (symbolic cryptography, Dolev-Yao adversary) in the protocol-level theorems"] + translator["trusted"]),
+        "theorems": po["theorems"], "axioms": po["axioms"], "translator": translator,
         "evaluations": len(cases), "distinct_nontrivial": len(cases) - answers.get("null", 0),
         "rule": "timeout certificates over committees of 3-11 validators (weights 1-3): every assignment (exhaustive for 3 and, in the thorough tier, 4 validators; biased random beyond) of 'not a signer' or one of 20 reports (high vote in {none, A=(n,1)@v-1, B=(n,2)@v-1, C=(n+1,3)@v-1, A@v-2} x high certificate in {none, (n-1), (n), (n+1)}); compared: high vote, high certificate, implied block, view; predicate: for every quorum Q, faulty set of weight <= f and block for which the property's premises hold, the implied block re-proposes it or has a higher number",
         "answer_distribution": answers, "predicate_certificates": npred,
